@@ -189,6 +189,9 @@ class Summariser:
                 is_ok = a[1][2] in ("Ok", "Some")
                 if is_ok != (a[0] == "ok"):
                     return True
+            # `from_residual(..)` rebuilds the error/none value of a failed `?`: it is never Ok/Some
+            if a[0] == "ok" and isinstance(a[1], tuple) and a[1] and a[1][0] == "from_residual":
+                return True
             if a[0] == "variant" and isinstance(a[1], tuple) and a[1] and a[1][0] == "agg" and a[1][2] is not None:
                 if (a[1][2] in a[2]) == bool(a[3]):
                     return True
